@@ -51,5 +51,5 @@ def run(ctx):
     return "model_checking", cov, [
         "the specification enumerates classes (file shape x text feature x query x option x entry point), not bytes; each class has one concrete representative",
         "texts YAML cannot carry (invalid UTF-8) and files that do not load are searched on a database built directly from structs",
-        "every call runs under a 20 s deadline with panic recovery; fatal errors that kill the process surface as an infrastructure error of the driver and are then reproduced by hand",
+        "every call runs under a 20 s deadline with panic recovery, one child process per (file shape, text class) group with a 48 MB stack limit; a fatal error that kills the child (stack overflow, out of memory) is attributed to the call it was working on",
         "loader classification: missing -> not found; scalar / map / list of scalars / damaged / binary -> parse error; well-formed lists load; wrong-typed fields, deep nesting and alias bombs may load or be a parse error"]
